@@ -394,10 +394,11 @@ def build_chain_real(chain):
     return mods
 
 
-def chain_codes(chain):
-    """Code objects for a chain, obtained from a real Grammar(include_source=True) compile."""
+def chain_codes(chain, fresh=False):
+    """Code objects for a chain, obtained from a real Grammar(include_source=True) compile.
+    fresh=True: generate the source again now (not cached, not stored)."""
     key = tuple(chain)
-    hit = _CODE_CACHE.get(key)
+    hit = None if fresh else _CODE_CACHE.get(key)
     if hit is not None:
         return hit
     out = []
@@ -414,16 +415,18 @@ def chain_codes(chain):
                 out.append((name, code, m.__doc__))
         except Exception as e:
             out = ('fail', type(e).__name__, str(e)[:200])
+    if fresh:
+        return out
     if len(_CODE_CACHE) >= _CODE_CACHE_MAX:
         _CODE_CACHE.pop(next(iter(_CODE_CACHE)))
     _CODE_CACHE[key] = out
     return out
 
 
-def build_chain_fast(chain):
+def build_chain_fast(chain, fresh=False):
     """Pristine modules for a chain by exec of the cached generated code (fast reference path).
     Must be called inside isolated_registry()."""
-    codes = chain_codes(chain)
+    codes = chain_codes(chain, fresh)
     if isinstance(codes, tuple):
         raise RuntimeError('chain does not compile: %s %s' % (codes[1], codes[2]))
     mods = []
@@ -466,7 +469,7 @@ def install_plain(name, module):
         setattr(sys.modules['.'.join(parts[:-1])], parts[-1], module)
 
 
-def reference_outcome(chain, op, definitive=False, on_hook=None):
+def reference_outcome(chain, op, definitive=False, on_hook=None, exec_now=False):
     """The same operation executed alone: fresh modules compiled from the same descriptions,
     one client, no pre-emption, no earlier operations, no nested parses (their outcome is
     judged on its own).  definitive=True uses the real Grammar() for the fresh modules."""
@@ -474,7 +477,10 @@ def reference_outcome(chain, op, definitive=False, on_hook=None):
     env.on_hook = on_hook
     with isolated_registry():
         try:
-            mods = build_chain_real(chain) if definitive else build_chain_fast(chain)
+            if exec_now:
+                mods = build_chain_fast(chain, fresh=True)
+            else:
+                mods = build_chain_real(chain) if definitive else build_chain_fast(chain)
         except Exception as e:
             return {'path': [], 'out': {'err': 'ref-compile:' + type(e).__name__}, 'fired': [], 'steps': 0,
                     'nested': []}
